@@ -216,8 +216,7 @@ theorem slStreamFrame_cnt (k : Kind) (hk : k ∉ slKinds) (r : R) (fr : Frame.Fr
 @[simp] theorem closeIfClosing_out (r : R) : (closeIfClosing r).out = r.out := by
   simp only [closeIfClosing]; split <;> rfl
 
-@[simp] theorem applyTableSize_out (r : R) (st : Frame.SettingsVal) : (applyTableSize r st).out = r.out := by
-  simp only [applyTableSize]; split <;> rfl
+@[simp] theorem applyTableSize_out (r : R) (st : Frame.SettingsVal) : (applyTableSize r st).out = r.out := rfl
 
 theorem slFrame_cnt (k : Kind) (hk : k ∉ slKinds) (r : R) (fr : Frame.Frame) :
     cnt k (slFrame r fr).out = cnt k r.out := by
